@@ -399,10 +399,12 @@ func (x *Exec) merge(envs []*Env) *Env {
 		x.W.Facts = append(x.W.Facts, Eq(npc, Or(pcs...)).S)
 		out.pc = npc
 	}
-	// variables present in all live envs
+	// variables present in any live env (a variable not in scope on some path gets an unconstrained value there)
 	keys := map[types.Object]bool{}
-	for k := range live[0].vars {
-		keys[k] = true
+	for _, e := range live {
+		for k := range e.vars {
+			keys[k] = true
+		}
 	}
 	var ordered []types.Object
 	for k := range keys {
@@ -415,30 +417,46 @@ func (x *Exec) merge(envs []*Env) *Env {
 		return ordered[i].Name() < ordered[j].Name()
 	})
 	for _, k := range ordered {
-		first := live[0].vars[k]
+		var first Term
+		for _, e := range live {
+			if v, ok := e.vars[k]; ok {
+				first = v
+				break
+			}
+		}
 		same := true
-		inAll := true
-		for _, e := range live[1:] {
+		for _, e := range live {
 			v, ok := e.vars[k]
 			if !ok {
-				inAll = false
-				break
+				if x.termMode {
+					same = false
+					continue
+				}
+				nv := x.W.Fresh(k.Name()+"_oos", first.Sort)
+				nv.GoT = first.GoT
+				e.vars[k] = nv
+				v = nv
 			}
 			if v.S != first.S {
 				same = false
 			}
-		}
-		if !inAll {
-			continue
 		}
 		if same {
 			out.vars[k] = first
 			continue
 		}
 		if x.termMode {
-			r := live[len(live)-1].vars[k]
-			for i := len(live) - 2; i >= 0; i-- {
-				r = Ite(live[i].pc, live[i].vars[k], r)
+			var r Term
+			for i := len(live) - 1; i >= 0; i-- {
+				v, ok := live[i].vars[k]
+				if !ok {
+					continue
+				}
+				if r.S == "" {
+					r = v
+				} else {
+					r = Ite(live[i].pc, v, r)
+				}
 			}
 			r.GoT = first.GoT
 			out.vars[k] = r
